@@ -6,7 +6,7 @@ CHECKS["C05"] = dict(
     level="exploration",
     technique="stateful model-based property testing (rapid) of the control package and of cesium writers against an argmax(authority, -open order) reference, plus race-detector stress of concurrent gate operations",
     level_text=("L1: generated histories of OpenGate/SetAuthority/Release on control.Controller (exclusive and shared concurrency, bounded and unbounded ranges, bridging ranges, ErrIfControlled/ErrOnUnauthorizedOpen) - after every step Authorize succeeds exactly for the model's holder (shared: the gates at the holder's authority), every returned Transfer names exactly the model's previous and next holder, LeadingState is the first region's holder, refused opens change nothing. "
-                "L2: several cesium writers with authorities on one channel group - Write's authorized flag and persisted content follow the model; L2c (TestC05Digests): with a control update channel configured, the ControlUpdates a streamer receives reconstruct the holder after every operation, each names the holder it replaces, an operation that changes nothing publishes nothing, and ControlStates agrees. L3: the same gate operations from several goroutines under the race detector with a quiescent-state check. Sampled; schedules are sampled, not enumerated."),
+                "L2: several cesium writers with authorities on one channel group - Write's authorized flag and persisted content follow the model; L2c (TestC05Digests): with a control update channel configured, the ControlUpdates a streamer receives reconstruct the holder after every operation, each names the holder it replaces, an operation that changes nothing publishes nothing, and ControlStates agrees. L2d (TestC05AutoIndex): an auto-index writer (data channels only) against a competitor on the index channel - the implicitly opened index carries the maximum of the writer's data-channel authorities, also after SetAuthority on one data channel or a broadcast, and the writer's frames are authorised and persisted exactly while it controls the index. L3: the same gate operations from several goroutines under the race detector with a quiescent-state check. Sampled; schedules are sampled, not enumerated."),
     level_note="Trusted: the M-CTRL model (harness), rapid, the race detector for L3. Region formation (a gate joins the single region its range overlaps; a range overlapping two regions is refused) follows the controller's documented structure.",
     rule=("L1: 2-30 ops over subjects a-e, authorities {0,1,5,254,255}, ranges [s,MAX) (70%) or bounded. Non-trivial = history with >=3 holder changes including one caused by SetAuthority and a tie decided by open order; distinct by script hash."),
     assumptions=["gates are opened with ranges of positive length"],
@@ -14,5 +14,6 @@ CHECKS["C05"] = dict(
            dict(name="TestC05Concurrent", race=True, quick=dict(cases=3000, shards=2, gomaxprocs=[4, 16]), thorough=dict(cases=40000, shards=8, gomaxprocs=[1, 2, 4, 16], timeout=1500)),
            dict(name="TestC05Relay", quick=dict(cases=1200, shards=2), thorough=dict(cases=12000, shards=8, timeout=1500)),
            dict(name="TestC05Writers", quick=dict(cases=1500, shards=2), thorough=dict(cases=15000, shards=8, timeout=1500)),
+           dict(name="TestC05AutoIndex", quick=dict(cases=1500, shards=2), thorough=dict(cases=15000, shards=8, timeout=1500)),
            dict(name="TestC05Digests", quick=dict(cases=800, shards=2), thorough=dict(cases=10000, shards=8, timeout=1500))],
 )
